@@ -221,7 +221,7 @@ class Codec:
             logging.error(f"*** BodyLength missing or not 2nd field *** [{tag}]: {msg}")
             assert silent, "2nd tag must be BodyLength"
             return (None, skip_length, None)
-        elif not (value.isascii() and value.isdigit()):
+        elif not (value.isascii() and value.isdigit()) or len(value) > 18:
             logging.error(f"*** BodyLength is not a number *** [{value}]: {msg}")
             assert silent, "BodyLength must be a number"
             return (None, valid_idx + next_msg, None)
@@ -252,7 +252,7 @@ class Codec:
                 return (None, parsed_length, None)
             tag, value = toks
 
-            if not (tag.isascii() and tag.isdigit()):
+            if not (tag.isascii() and tag.isdigit()) or len(tag) > 18:
                 assert silent, f"invalid tag {m}"
                 return (None, parsed_length, None)
 
@@ -267,7 +267,12 @@ class Codec:
                 cheksum_base = self.SOH.join(msg[:-1])
                 checksum = (sum([ord(i) for i in cheksum_base]) + 1) % 256
 
-                if not (value.isascii() and value.isdigit()) or checksum != int(value):
+                # CheckSum is always sent as exactly three digits
+                if (
+                    len(value) != 3
+                    or not (value.isascii() and value.isdigit())
+                    or checksum != int(value)
+                ):
                     logging.warning(
                         "\tCheckSum: %s (INVALID) expecting %s" % (value, checksum)
                     )
